@@ -436,7 +436,10 @@ class VersionFile:
         if trimDir:
             trimDir = os.path.realpath(trimDir)
 
-        fd = open(file, "w")
+        # write a temporary file and rename it into place, so that a reader (or a crash) never sees
+        # a truncated record
+        tmpFile = "%s.tmp%d" % (file, os.getpid())
+        fd = open(tmpFile, "w")
 
         print("""FILE = version
 PRODUCT = %s
@@ -513,3 +516,4 @@ Group:
         print("End:", file=fd)
 
         fd.close()
+        os.rename(tmpFile, file)
